@@ -642,7 +642,8 @@ def rejections(ctx):
                             spa.Bind(spa.Vocabulary(d, algebra=ALGS[alg]), unbind_left=bool(ul), unbind_right=bool(ur))
                     impl = "ok"
                 except ValueError as e:
-                    impl = "not-square" if "square" in str(e) else "both-flags"
+                    # the cause is read from the inputs, not from the message wording
+                    impl = "not-square" if (alg != "hrr" and math.isqrt(d) ** 2 != d) else "both-flags"
                 ctx.count(f"reject {builder} {alg} {d} {ul}{ur}", branch="rejections")
 
                 def cb(st, payload, impl=impl, alg=alg, d=d, ul=ul, ur=ur, builder=builder):
